@@ -277,12 +277,67 @@ def c10_serialization(a: int, b: int, sa: int, sb: int, boost: int, layout: int,
     return ok
 
 
+def check_aliases(variant, virt, nsdepth, members):
+    """the same template instantiation under two MATLAB names (two typedefs, or an instantiation list plus a typedef)"""
+    path = ("geo", "deep")[:nsdepth]
+    q = "".join(x + "::" for x in path)
+    v = "virtual " if virt else ""
+    body = ["Box(T t);", "Box(T t); T get() const; static %sBox<T> Make(T t);" % q, "Box(); T item;"][members]
+    if variant == 0:
+        decl = "template<T> %sclass Box { %s }; typedef %sBox<float> BoxF; typedef %sBox<float> Cube; typedef %sBox<int> BoxI;" % (v, body, q, q, q)
+        names = ["BoxF", "Cube", "BoxI"]
+    elif variant == 1:
+        decl = "template<T = {double, int}> %sclass Box { %s }; typedef %sBox<int> Crate;" % (v, body, q)
+        names = ["BoxDouble", "BoxInt", "Crate"]
+    else:
+        decl = "template<T = {double}> %sclass Box { %s }; typedef %sBox<double> Alias; typedef %sBox<double> Alias2; class Plain { Plain(); };" % (v, body, q, q)
+        names = ["BoxDouble", "Alias", "Alias2", "Plain"]
+    text = "".join("namespace %s { " % x for x in path) + decl + " }" * nsdepth
+    files, cpp, _w = pipe.matlab(text)
+    problems = []
+    flatns = "".join(path)
+    for n in names:
+        flat = flatns + n
+        key = pkg(path) + n + ".m"
+        if key not in files:
+            problems.append("no classdef file %s" % key)
+        if cpp.count("Collector_%s;" % flat) != 1 or cpp.count("static Collector_%s collector_%s;" % (flat, flat)) != 1:
+            problems.append("class %s: collector declared %d / %d times" % (n, cpp.count("Collector_%s;" % flat), cpp.count("static Collector_%s collector_%s;" % (flat, flat))))
+        if cpp.count("collector_%s.begin()" % flat) != 1:
+            problems.append("class %s: freed %d times in _deleteAllObjects" % (n, cpp.count("collector_%s.begin()" % flat)))
+        rtti = cpp.count('"%s"));' % flat)
+        if n != "Plain" and rtti != (1 if virt else 0):
+            problems.append("class %s: %d RTTI entries, virtual=%s" % (n, rtti, bool(virt)))
+        if not re.search(r"^void %s_collectorInsertAndMakeBase_\d+\(" % flat, cpp, re.M) or not re.search(r"^void %s_deconstructor_\d+\(" % flat, cpp, re.M):
+            problems.append("class %s: collector-insert / destructor routine missing" % n)
+    if problems:
+        return _fail(text=text, problems=problems)
+    return True
+
+
+def c10_aliases(variant: int, virt: int, nsdepth: int, members: int) -> bool:
+    """
+    One template instantiation wrapped under two MATLAB names (two typedef aliases; an instantiation list plus an alias; an
+    alias of an enumerated instantiation next to a plain class): every name has its classdef, exactly one collector
+    declaration, one clean-up entry, its routines, and an RTTI entry iff the class is virtual.
+    pre: 0 <= variant <= 2 and 0 <= virt <= 1 and 0 <= nsdepth <= 2 and 0 <= members <= 2
+    post: _
+    """
+    variant, virt, nsdepth, members = pick(variant, 0, 3), pick(virt, 0, 2), pick(nsdepth, 0, 3), pick(members, 0, 3)
+    with concrete():
+        ok = check_aliases(variant, virt, nsdepth, members)
+    reached({"variant": variant, "virtual": virt, "nsdepth": nsdepth, "members": members})
+    return ok
+
+
 def conds(tier):
     q = tier == "quick"
     t = (lambda x, y: x) if q else (lambda x, y: y)
     M = "harness.c10"
     bc = "%d first classes x %s second classes x %%s%s" % (NREP, "%d representative" % len(BREPS) if q else "%d" % NREP, "" if q else " x 3 ignore choices")
     return [
+        xh.Cond(M, "c10_aliases", t(200, 600), kind="shape-bounded", examples=["variant=0, virt=1, nsdepth=1, members=1", "variant=1, virt=0, nsdepth=2, members=0", "variant=2, virt=1, nsdepth=0, members=2"],
+                bounds="3 alias layouts x virtual x namespace depth 0-2 x 3 member sets"),
         xh.Cond(M, "c10_serialization", t(420, 1800), kind="shape-bounded", path_timeout=90, examples=["a=2, b=0, sa=1, sb=0, boost=1, layout=0, ign=0", "a=1, b=3, sa=1, sb=1, boost=0, layout=1, ign=1"],
                 bounds="%d x %d class shapes (method-less, static-only, property-only included) x serialize on either class x serialization option%s" % (len(SREPS), 4 if q else len(SREPS), " (not both off)" if q else " x 2 layouts x ignore")),
         xh.Cond(M, "c10_census_even", t(420, 3600), kind="shape-bounded", path_timeout=90, examples=["a=4, b=2, layout=1, ign=2", "a=11, b=0, layout=3, ign=0"], bounds=bc % "layouts 0,2,4,6"),
